@@ -17,6 +17,7 @@ fn c20_strategy() -> impl Strategy<Value = Scenario> {
             prop_oneof![
                 6 => any::<u16>().prop_map(Step::Answer),
                 2 => (any::<u16>(), proptest::sample::select(&[-1i32, -32601, 400][..])).prop_map(|(i, c)| Step::AnswerErr(i, c)),
+                1 => any::<bool>().prop_map(Step::SyncWarning),
                 5 => heights().prop_map(Step::Block),
                 4 => heights().prop_map(Step::Height),
                 6 => prop_oneof![3 => Just(12u8), 2 => Just(13u8), 2 => 1u8..=11, 1 => Just(24u8)].prop_map(Step::Tick),
@@ -44,6 +45,7 @@ fn c20_strategy() -> impl Strategy<Value = Scenario> {
             crash_at: vec![],
             freeze: None,
         hold: vec![],
+            freeze_polls: false,
         })
 }
 
@@ -158,8 +160,6 @@ pub fn run(tier: Tier, seed: u64) -> i32 {
     s.shrink_iters = 20;
     s.search("parallel-stress", "parallel-stress", tier.pick(8, 200), stress_strategy, stress_case);
     s.shrink_iters = 600;
-    if tier == Tier::Thorough {
-        crate::e2e::c20_e2e(&mut s);
-    }
+    crate::e2e::c20_e2e(&mut s);
     s.finish()
 }
